@@ -83,7 +83,7 @@ class CHECK(FloCheck):
                         clauses.append((g, it["aux"], it["needs"], later))
                 g += 1
         clauses = [c for c in clauses if uses[c[1]] == 1]        # shared auxiliaries are another finding's business
-        clock = clock_only_shares(prog)
+        clock = clock_only_shares(prog) if case.get("gen") == "susp" else set()    # framer 0 is a plain clock there
         first_frames = {F.idx: [x.gid for x in F.first.outline] for F in m.framers}
         events, prev = [], None
         lines = list(out)
